@@ -164,7 +164,7 @@ def run(prop):
         funs = sorted(os.path.join(bdir, f) for f in os.listdir(bdir) if f.endswith(".sc")) + funs
         import stagecheck as _sc
 
-        funs = _sc.shape_programs(chk, only=("dup", "rvd", "objp", "nest", "argn", "bal", "rvc")) + funs
+        funs = _sc.shape_programs(chk, only=("dup", "rvd", "objp", "nest", "argn", "bal", "rvc", "rvl", "pfx", "dsp", "cap", "capp", "gname")) + funs
         # regression corpus (minimised past failures): always, never sampled away
         funs = pipeline.corpus_programs("regress") + [f for f in funs if "/corpus/regress/" not in f]
         for f in funs:
@@ -180,6 +180,7 @@ def run(prop):
                     inputs.insert(0, (p, np_, "regress"))
                 else:
                     inputs.append((p, np_, "fun"))
+        sp_checked = set()
         for path, nargs, kind in inputs:
             if kind == "regress":
                 # minimised past failures may depend on the label numbers: replay them in a FRESH compiler
@@ -280,6 +281,16 @@ def run(prop):
                     text = st[stage][1]
                     if arch == "rv" and " " in text.split("\n", 1)[0]:
                         text = text.split(" ", 1)[1]  # harness payload of S7r: `<nargs> <text>`
+                    # static oracle on the implementation's text: every stack-pointer-relative operand lies inside the
+                    # reserved spill area (never below the stack pointer, where the next push / call writes)
+                    if prop in ("C09", "C13") and arch in ("x86", "a64") and (path, arch) not in sp_checked:
+                        sp_checked.add((path, arch))
+                        bad_sp = sp_operands_outside(text, arch)
+                        if bad_sp:
+                            found = True
+                            chk.impl_oracle_failures.append({"file": path, "arch": arch, "sp_operand": bad_sp})
+                            chk.violation("%s:%s:sp-operand-outside-spill-area" % (prop, arch), "%s text of %s addresses the stack outside the spill area: %s" % (arch, os.path.basename(path), bad_sp),
+                                          "spoperand_%s_%s.txt" % (arch, os.path.basename(path)), "file=%s\narch=%s\ninstruction=%s\nprogram:\n%s\n" % (path, arch, bad_sp, open(path).read()[:20000]))
                     ap = R.write("%s.asm" % stage, text)
                     line = R.model_line("asm %s %s %s %d %s" % (arch, ap, a, R.lad.asm_fuel, "heap,wf" if prop == "C14" else ("heap" if spec["classes"] & {"inv", "oob", "cc", "align", "undef"} else "none")))
                     if line is not None and line.startswith("ERR unknown"):
@@ -320,6 +331,26 @@ def run(prop):
         chk.violation("%s:unproved" % prop, "proof obligations or correspondence broken, no failing program found: " + "; ".join(what)[:600],
                       "unproved.txt", "\n".join(what) + "\n" + plog[-3000:], found_input=False)
     return chk.finish()
+
+
+def sp_operands_outside(text, arch):
+    """first instruction with a stack-pointer-relative memory operand outside [0, spill area) — None if all are inside.
+    x86-64: `[rsp + N]` with 0 <= N < 2048; AArch64: `[SP, N]` with 0 <= N (pre/post-indexed pairs of the
+    prologue/epilogue and the print sites move SP themselves and are not plain operands)"""
+    for l in text.split("\n"):
+        t = l.strip()
+        if not t or t.startswith(";") or t.startswith("//"):
+            continue
+        if arch == "x86":
+            for m in re.finditer(r"\[rsp\s*([+-])\s*(-?\d+)\]", t):
+                off = int(m.group(2)) * (1 if m.group(1) == "+" else -1)
+                if off < 0 or off >= 2048:
+                    return t
+        else:
+            for m in re.finditer(r"\[\s*SP\s*,\s*#?(-?\d+)\s*\](?!!)", t):
+                if int(m.group(1)) < 0:
+                    return t
+    return None
 
 
 def known_key(prop, arch, cls, line, text):
